@@ -17,6 +17,7 @@ func init() {
 	vrt.Register("C05_operations", Operations)
 	vrt.Register("C05_unknown_identifier", UnknownIdentifier)
 	vrt.Register("C05_nested_unknown", NestedUnknown)
+	vrt.Register("C05_two_positions", TwoPositions)
 }
 
 var sentinel = errors.New("sentinel failure")
@@ -299,5 +300,62 @@ func NestedUnknown() {
 	vrt.Note("got", out)
 	vrt.Assert(err != nil, "a failing partial / helper / operation in a condition fails the render")
 	vrt.Assert(out == "", "a failed render returns the empty string")
+	vrt.Cover("done")
+}
+
+func replaceAll(s, old, new string) string {
+	out := ""
+	for i := 0; i < len(s); {
+		if i+len(old) <= len(s) {
+			if s[i:i+len(old)] == old {
+				out += new
+				i += len(old)
+				continue
+			}
+		}
+		out += s[i : i+1]
+		i++
+	}
+	return out
+}
+
+// two failing calls at any two positions, one after the other in one template
+// (quick: the first 8 positions squared; thorough: all 54 x 54)
+func TwoPositions() {
+	n := 8
+	if vrt.Tier() > 0 {
+		n = len(positions)
+	}
+	f1 := &failer{fail: vrt.Bool()}
+	f2 := &failer{fail: vrt.Bool()}
+	ctx := newCtx(f1)
+	ctx.Set("fail2", f2.call)
+	a := positions[vrt.Choice(n)]
+	b := replaceAll(positions[vrt.Choice(n)], "fail()", "fail2()")
+	in := a + "|" + b
+	vrt.Note("input", in)
+	out, err := plush.Render(in, ctx)
+	vrt.Note("got", out)
+	failed := false
+	if f1.fail {
+		if f1.ran > 0 {
+			failed = true
+		}
+	}
+	if f2.fail {
+		if f2.ran > 0 {
+			failed = true
+		}
+	}
+	if f1.fail {
+		vrt.Assert(f2.ran == 0, "nothing after a failed tag is evaluated")
+	}
+	if failed {
+		vrt.Assert(err != nil, "a failing helper fails the render")
+		vrt.Assert(errors.Is(err, sentinel), "the returned error wraps the helper's error")
+		vrt.Assert(out == "", "a failed render returns the empty string")
+	} else {
+		vrt.Assert(err == nil || !errors.Is(err, sentinel), "no failure is reported when no invoked helper failed")
+	}
 	vrt.Cover("done")
 }
